@@ -53,17 +53,17 @@ def overflow_cases(cases, st, res, prop):
         kv = parse_kv(o)
         c = cases[i]
         c.extra['fit'] = o
+        # refusals the documentation prescribes regardless of size: ValueError of any kind is right
+        kw = c.kw
+        v = norm_version(kw.get('version'))
+        micro_sym = kw.get('micro') is True or (v is not None and v < 1)
+        if micro_sym and (norm_error(kw.get('error')) == 2 or kw.get('eci') or norm_mode(kw.get('mode')) == 13):
+            continue
+        if kw.get('micro') is False and v is not None and v < 1:
+            continue
+        if kw.get('micro') is True and v is not None and v >= 1:
+            continue
         if kv.get('expect') == 'version':
-            # refusals the documentation prescribes regardless of size
-            kw = c.kw
-            v = norm_version(kw.get('version'))
-            micro_sym = kw.get('micro') is True or (v is not None and v < 1)
-            if micro_sym and (norm_error(kw.get('error')) == 2 or kw.get('eci') or norm_mode(kw.get('mode')) == 13):
-                continue
-            if kw.get('micro') is False and v is not None and v < 1:
-                continue
-            if kw.get('micro') is True and v is not None and v >= 1:
-                continue
             res.violations.append(dict(property_field=prop, verdict=f'refused-with-{c.exc}-but-{o}', call=c.call(),
                                        replay=c.replay(), judge=kv, known_id=None))
         elif kv.get('expect') == 'overflow' and c.exc != 'DataOverflowError':
